@@ -39,8 +39,8 @@ ASSUMPTIONS = ["divisors of floordiv / ceildiv / mod are positive constants (the
 JOB_TIMEOUT = {"quick": 600, "thorough": 3000}
 
 RSUB_KEY = "rsub-int-minus-expr-swapped"
-NSHARDS = {"quick": 32, "thorough": 64}
-CASES = {"quick": {"expr": 120, "map": 30}, "thorough": {"expr": 1500, "map": 300}}
+# (shards, cases per shard); importing xdsl costs ~2 CPU-s per shard, a case ~25-40 ms
+SHARDS = {"quick": {"expr": (16, 240), "map": (8, 120)}, "thorough": {"expr": (64, 1500), "map": (32, 600)}}
 
 
 class HarnessBug(Exception):
@@ -899,11 +899,10 @@ def run_perm_helpers(rng):
 # ====================================================================== plan / work / finish
 def plan(tier, seed):
     jobs = []
-    n = NSHARDS[tier]
-    for sh in range(n):
-        jobs.append({"kind": "expr", "seed": seed, "tier": tier, "shard": sh, "count": CASES[tier]["expr"]})
-    for sh in range(n // 2):
-        jobs.append({"kind": "map", "seed": seed, "tier": tier, "shard": sh, "count": CASES[tier]["map"] * 2})
+    for kind in ("expr", "map"):
+        n, count = SHARDS[tier][kind]
+        for sh in range(n):
+            jobs.append({"kind": kind, "seed": seed, "tier": tier, "shard": sh, "count": count})
     return jobs
 
 
